@@ -111,6 +111,20 @@ class BVEmitter:
             e = bvc(w, w)
             for i in range(w - 1, -1, -1):
                 e = "(ite (= ((_ extract %d %d) %s) #b1) %s %s)" % (i, i, x, bvc(i, w), e)
+        elif op == "uf":
+            # uninterpreted function application (logic must be QF_UFBV)
+            fname, idx, widths = t.aux
+            sym = "uf_%s_%s" % (fname, idx)
+            if not hasattr(self, "ufs"):
+                self.ufs = {}
+            sig = (tuple(widths), w)
+            if sym not in self.ufs:
+                self.ufs[sym] = sig
+                self.lines.append("(declare-fun %s (%s) (_ BitVec %d))"
+                                  % (sym, " ".join("(_ BitVec %d)" % x for x in widths), w))
+            elif self.ufs[sym] != sig:
+                raise ValueError("BV emit: uf %s used with two signatures" % sym)
+            e = "(%s %s)" % (sym, " ".join(R(x, ww) for x, ww in zip(a, widths)))
         else:
             raise ValueError("BV emit: " + op)
         self.lines.append("(define-fun %s () (_ BitVec %d) %s)" % (name, w, e))
